@@ -165,45 +165,41 @@ def countM (path : List PSeg) : Nat := (path.filter PSeg.isM).length
 
 /-- `has_square_coordinates` -/
 def squareCoords (p0 p1 p2 p3 : Point) : Bool :=
-  (p0.1 == p1.1 && p1.2 == p2.2 && p2.1 == p3.1 && p3.2 == p0.2) ||
-  (p0.2 == p1.2 && p1.1 == p2.1 && p2.2 == p3.2 && p3.1 == p0.1)
+  decide ((p0.1 = p1.1 ∧ p1.2 = p2.2 ∧ p2.1 = p3.1 ∧ p3.2 = p0.2) ∨
+          (p0.2 = p1.2 ∧ p1.1 = p2.1 ∧ p2.2 = p3.2 ∧ p3.1 = p0.1))
 
-inductive ShapeClass where | lineLike | quadLike | other
-deriving DecidableEq, Repr
+/-- `x[0]` of a path segment: the operator letter. -/
+def PSeg.letter : PSeg → Char
+  | .m _ => 'm' | .l _ => 'l' | .c .. => 'c' | .v .. => 'v' | .y .. => 'y' | .h => 'h'
 
-/-- `shape in {"mlh", "ml"}`, `shape in {"mlllh", "mllll"}` on the list of operator letters
-(`true` = `l`, the leading `m` already removed; `closed` = the trailing `h`). -/
-def classify : List PSeg → ShapeClass
-  | [.m _, .l _] => .lineLike
-  | [.m _, .l _, .h] => .lineLike
-  | [.m _, .l _, .l _, .l _, .h] => .quadLike
-  | [.m _, .l _, .l _, .l _, .l _] => .quadLike
-  | _ => .other
+/-- `len(shape) > 3 and shape[-2:] == "lh" and pts[-2] == pts[0]` -/
+def redundantL (shape : List Char) (pts : List Point) : Bool :=
+  decide (shape.length > 3 ∧ shape.drop (shape.length - 2) = ['l', 'h'] ∧ pts[pts.length - 2]? = pts.head?)
 
-/-- `len(shape) > 3 and shape[-2:] == "lh" and pts[-2] == pts[0]`: returns the path whose letters
-are `shape[:-2] + "h"` (the letters are all the classification looks at) when the redundant `l` is dropped. -/
-def dropRedundant (path : List PSeg) (pts : List Point) : List PSeg × List Point :=
-  match path.reverse, pts.reverse, pts with
-  | .h :: .l _ :: restRev, _ :: q :: _, p0 :: _ =>
-    if path.length > 3 && q == p0 then ((.h :: restRev).reverse, pts.dropLast) else (path, pts)
-  | _, _, _ => (path, pts)
-
-/-- The `else` branch of paint_path: a path with exactly one `m`, at its head. -/
+/-- The `else` branch of paint_path: a path with exactly one `m`, at its head.
+`shape` is the string of operator letters, exactly as in the Python code. -/
 def paintSingle (ctm : Matrix) (a : PaintArgs) (path : List PSeg) : List Shape :=
   match path with
   | [] => []
   | first :: _ =>
     let start := first.lastPt (0, 0)
-    let rawPts := path.map (fun p => p.lastPt start)
-    let pts := rawPts.map (apply_matrix_pt ctm)
+    let pts0 := path.map (fun p => apply_matrix_pt ctm (p.lastPt start))
     let tpath := path.map (PSeg.mapPts (apply_matrix_pt ctm))
-    let (shape, pts) := dropRedundant path pts
-    match classify shape, pts with
-    | .lineLike, p0 :: p1 :: _ => [mkLine a p0 p1 tpath]
-    | .quadLike, [p0, p1, p2, p3, p4] =>
-      if p0 == p4 && squareCoords p0 p1 p2 p3 then [mkRect a (p0.1, p0.2, p2.1, p2.2) tpath]
-      else [mkCurve a pts tpath]
-    | _, _ => [mkCurve a pts tpath]
+    let shape0 := path.map PSeg.letter
+    -- Drop a redundant "l" on a path closed with "h"
+    let shape := if redundantL shape0 pts0 then shape0.take (shape0.length - 2) ++ ['h'] else shape0
+    let pts := if redundantL shape0 pts0 then pts0.dropLast else pts0
+    if shape = ['m', 'l', 'h'] ∨ shape = ['m', 'l'] then
+      match pts with
+      | p0 :: p1 :: _ => [mkLine a p0 p1 tpath]
+      | _ => []                                   -- unreachable: two letters, two points
+    else if shape = ['m', 'l', 'l', 'l', 'h'] ∨ shape = ['m', 'l', 'l', 'l', 'l'] then
+      match pts with
+      | [p0, p1, p2, p3, p4] =>
+        if p0 = p4 ∧ squareCoords p0 p1 p2 p3 = true then [mkRect a (p0.1, p0.2, p2.1, p2.2) tpath]
+        else [mkCurve a pts tpath]
+      | _ => []                                   -- unreachable: five letters, five points
+    else [mkCurve a pts tpath]
 
 /-- `PDFLayoutAnalyzer.paint_path`. -/
 def paintPath (ctm : Matrix) (a : PaintArgs) (path : List PSeg) : List Shape :=
